@@ -1,5 +1,9 @@
 import Proofs.NumLemmas
 import Proofs.SprintLemmas
+import Proofs.F64Mono
+import Proofs.F64Nearest
+import Proofs.NumZero
+import Proofs.NumRound
 /-!
 # C17 — numeric filters compute exact arithmetic and report impossible operations
 
@@ -12,41 +16,110 @@ arbitrary rationals / integers (no bounds).
 /-! ## plus, minus, times: exact whenever the exact result is representable; in general the
 IEEE-754 rounding of the exact result -/
 
-theorem plus_spec (a b : Rat) (h : Representable (a + b)) :
-    Num.plus [fv a, fv b] = ret (.flt .f64 (a + b)) := by
-  simp [Num.plus, Num.fltResult, f64Round_of_representable h false (fun _ => rfl), ret]
-
 theorem plus_rounds (a b r : Rat) (h : roundF64 (a + b) = some r) :
     Num.plus [fv a, fv b] = ret (.flt .f64 r) := by
   simp [Num.plus, Num.fltResult, f64Round_of_round h false (fun _ => rfl), ret]
+
+/-- the exact sum, whenever it is a float64: a float64 rounds to itself (`Representable q` is `roundF64 q = some q`) -/
+theorem plus_spec (a b : Rat) (h : Representable (a + b)) :
+    Num.plus [fv a, fv b] = ret (.flt .f64 (a + b)) := plus_rounds a b (a + b) h
 
 example : Representable ((1 : Rat) / 4 + 5 / 2) := by decide +kernel
 example : roundF64 (mkRat 3602879701896397 36028797018963968 + mkRat 3602879701896397 18014398509481984)
     = some (mkRat 1351079888211149 4503599627370496) := by decide +kernel   -- 0.1 + 0.2 = 0.30000000000000004
 
-theorem minus_spec (a b : Rat) (h : Representable (a - b)) :
-    Num.minus [fv a, fv b] = ret (.flt .f64 (a - b)) := by
-  simp [Num.minus, Num.fltResult, f64Round_of_representable h false (fun _ => rfl), ret]
-
 theorem minus_rounds (a b r : Rat) (h : roundF64 (a - b) = some r) :
     Num.minus [fv a, fv b] = ret (.flt .f64 r) := by
   simp [Num.minus, Num.fltResult, f64Round_of_round h false (fun _ => rfl), ret]
 
+theorem minus_spec (a b : Rat) (h : Representable (a - b)) :
+    Num.minus [fv a, fv b] = ret (.flt .f64 (a - b)) := minus_rounds a b (a - b) h
+
 example : Representable ((7 : Rat) - 9 / 2) := by decide +kernel
 
-/-- `times`: the only exact product the model does not give is the one Go signs negative zero
-(`0 * -1`), excluded by `hz`. -/
-theorem times_spec (a b : Rat) (h : Representable (a * b)) (hz : a * b = 0 → 0 ≤ a ∧ 0 ≤ b) :
-    Num.times [fv a, fv b] = ret (.flt .f64 (a * b)) := by
-  have : f64Round (a * b) (decide (a < 0) != decide (b < 0)) = .ok (a * b) := by
-    apply f64Round_of_representable h
+/-- `times` in general: the IEEE-754 product, i.e. the exact product correctly rounded (`roundF64`). The only
+rounded product the model does not give is a zero Go signs negative (operands of opposite sign whose product is zero
+or underflows to zero), excluded by `hz`. `times_spec` below is the case `r = a * b`. -/
+theorem times_rounds (a b r : Rat) (h : roundF64 (a * b) = some r) (hz : r = 0 → (a < 0 ↔ b < 0)) :
+    Num.times [fv a, fv b] = ret (.flt .f64 r) := by
+  have : f64Round (a * b) (decide (a < 0) != decide (b < 0)) = .ok r := by
+    apply f64Round_of_round h
     intro h0
-    have ⟨ha, hb⟩ := hz h0
-    simp [Rat.not_lt.mpr ha, Rat.not_lt.mpr hb]
+    have := hz h0
+    by_cases ha : a < 0 <;> simp_all
   simp [Num.times, Num.fltResult, this, ret]
+
+/-- `times`: the exact product whenever that is a float64 (a float64 rounds to itself); the only exact product the
+model does not give is the one Go signs negative zero (`0 * -1`), excluded by `hz`. -/
+theorem times_spec (a b : Rat) (h : Representable (a * b)) (hz : a * b = 0 → 0 ≤ a ∧ 0 ≤ b) :
+    Num.times [fv a, fv b] = ret (.flt .f64 (a * b)) :=
+  times_rounds a b (a * b) h (fun h0 => by
+    have ⟨ha, hb⟩ := hz h0
+    simp [Rat.not_lt.mpr ha, Rat.not_lt.mpr hb])
 
 example : Representable ((3 : Rat) / 2 * (-4)) ∧ ((3 : Rat) / 2 * (-4) = 0 → (0 : Rat) ≤ 3 / 2 ∧ (0 : Rat) ≤ -4) := by
   decide +kernel
+
+example : roundF64 (mkRat 3602879701896397 36028797018963968 * 3) = some (mkRat 2702159776422298 9007199254740992)
+    ∧ ((mkRat 2702159776422298 9007199254740992 : Rat) = 0 → ((mkRat 3602879701896397 36028797018963968 : Rat) < 0 ↔ (3 : Rat) < 0)) := by
+  decide +kernel   -- 0.1 * 3 = 0.30000000000000004
+
+/-! ### What `roundF64` is: correctly rounded, and where it overflows
+
+`roundF64 q = some r` says: `r` is a float64 (`rounds_to_float64`), no float64 is nearer to `q` (`rounding_nearest`;
+which of two equally near ones is taken — the even one — is the definition `roundHalfEven`), none lies strictly between
+`q` and `r` (`rounding_faithful`), and a float64 is returned unchanged (the `_spec` theorems: `Representable q` IS
+`roundF64 q = some q`). It is `none` exactly on overflow: never for `|q| ≤ math.MaxFloat64` (`float_op_in_range`),
+exactly for `|q| ≥ 2^1024 - 2^970` (`float_op_overflow`: there the real code computes ±Inf and prints `+Inf` /
+`-Inf`; the model answers `unmodelled`, which the comparison skips — `arith_overflow_unmodelled`). -/
+
+theorem rounds_to_float64 (q r : Rat) (h : roundF64 q = some r) : Representable r := roundF64_idem q r h
+
+theorem rounding_faithful (q r r' : Rat) (h : roundF64 q = some r) (hr' : Representable r') :
+    (r' ≤ q → r' ≤ r) ∧ (q ≤ r' → r ≤ r') :=
+  ⟨roundF64_ge_of_representable q r r' h hr', roundF64_le_of_representable q r r' h hr'⟩
+
+/-- round to NEAREST: no float64 is nearer to the exact result than the one returned -/
+theorem rounding_nearest (q r r' : Rat) (h : roundF64 q = some r) (hr' : Representable r') :
+    Num.ratAbs (r - q) ≤ Num.ratAbs (r' - q) :=
+  roundF64_nearest q r r' h hr'
+
+theorem float_op_in_range (q : Rat) (h1 : -maxF64 ≤ q) (h2 : q ≤ maxF64) :
+    ∃ r, roundF64 q = some r ∧ Representable r ∧ -maxF64 ≤ r ∧ r ≤ maxF64 := by
+  obtain ⟨r, e1, e2, e3⟩ := roundF64_no_overflow q h1 h2
+  exact ⟨r, e1, roundF64_idem q r e1, e2, e3⟩
+
+/-- 0.1 + 0.2: the exact sum lies half way between the float64s 0.3 and 0.30000000000000004 and goes to the even one -/
+example :
+    let q : Rat := mkRat 3602879701896397 36028797018963968 + mkRat 3602879701896397 18014398509481984
+    let r : Rat := mkRat 1351079888211149 4503599627370496
+    let r' : Rat := mkRat 5404319552844595 18014398509481984
+    roundF64 q = some r ∧ Representable r' ∧ r' ≤ q ∧ Num.ratAbs (r - q) ≤ Num.ratAbs (r' - q) ∧ -maxF64 ≤ q ∧ q ≤ maxF64 := by
+  decide +kernel
+
+theorem float_op_overflow (q : Rat) : roundF64 q = none ↔ (overflowF64 ≤ q ∨ q ≤ -overflowF64) :=
+  roundF64_none_iff q
+
+/-- between `math.MaxFloat64` and the threshold the result is `math.MaxFloat64` -/
+theorem float_op_saturates (q : Rat) (h1 : maxF64 ≤ q) (h2 : q < overflowF64) : roundF64 q = some maxF64 :=
+  roundF64_gap_pos q h1 h2
+
+/-- on overflow of the exact result all four float operations leave the model (the real code yields ±Inf, printed
+`+Inf` / `-Inf`: `{{ 1e300 | times: 1e300 }}` renders `+Inf`) -/
+theorem arith_overflow_unmodelled (a b : Rat) :
+    (roundF64 (a + b) = none → Num.plus [fv a, fv b] = .unmodelled "float64: overflow to ±Inf") ∧
+    (roundF64 (a - b) = none → Num.minus [fv a, fv b] = .unmodelled "float64: overflow to ±Inf") ∧
+    (roundF64 (a * b) = none → Num.times [fv a, fv b] = .unmodelled "float64: overflow to ±Inf") ∧
+    (∀ k, b ≠ 0 → roundF64 (a / b) = none →
+      Num.dividedBy [fv a, .val (.flt k b)] = .unmodelled "float64: overflow to ±Inf") := by
+  refine ⟨fun h => ?_, fun h => ?_, fun h => ?_, fun k hb h => ?_⟩
+  · simp [Num.plus, Num.fltResult, f64Round, h, Res.bind]
+  · simp [Num.minus, Num.fltResult, f64Round, h, Res.bind]
+  · simp [Num.times, Num.fltResult, f64Round, h, Res.bind]
+  · simp [Num.dividedBy, Num.divFloat, hb, Num.fltResult, f64Round, h, Res.bind]
+
+example : maxF64 = 179769313486231570814527423731704356798070567525844996598917476803157260780028538760589558632766878171540458953514382464234321326889464182768467546703537516986049910576551282076245490090389328944075868508455133942304583236903222948165808559332123348274797826204144723168738177180919299881250404026184124858368
+    ∧ overflowF64 ≤ (10 ^ 300 : Nat) * (10 ^ 300 : Nat) := by decide +kernel
 
 /-! ## divided_by: integer division for an integer divisor, real division for a float divisor -/
 
@@ -161,6 +234,65 @@ theorem floor_le_ceil (a : Rat) : a.floor ≤ a.ceil := by
 example : (7 / 2 : Rat).floor = 3 ∧ (7 / 2 : Rat).ceil = 4 ∧ (-7 / 2 : Rat).floor = -4 ∧ (-7 / 2 : Rat).ceil = -3
     ∧ inInt64 (7 / 2 : Rat).floor = true := by decide +kernel
 
+/-! ### ceil and floor return integers: on every receiver in the `int64` range, and only there
+
+Go's `int(f)` is defined for `f` in the range of `int` only; outside it the result is implementation-defined (on
+amd64 `{{ 1e19 | ceil }}`, `{{ -1e19 | floor }}` and `{{ 9223372036854775808.0 | floor }}` all print
+-9223372036854775808) and the model answers `unmodelled`. -/
+
+theorem floor_ceil_return_int (a : Rat) (h1 : ((-(2 ^ 63) : Int) : Rat) ≤ a) (h2 : a ≤ ((2 ^ 63 - 1 : Int) : Rat)) :
+    Num.floor [fv a] = ret (.int .int a.floor) ∧ Num.ceil [fv a] = ret (.int .int a.ceil) := by
+  have f1 : -(2 ^ 63) ≤ a.floor := Rat.le_floor_iff.2 h1
+  have f2 : a.floor ≤ 2 ^ 63 - 1 := Rat.intCast_le_intCast.1 (Rat.le_trans (Rat.floor_le a) h2)
+  have c1 : -(2 ^ 63) ≤ a.ceil := Rat.intCast_le_intCast.1 (Rat.le_trans h1 Rat.le_ceil)
+  have c2 : a.ceil ≤ 2 ^ 63 - 1 := Rat.ceil_le_iff.2 h2
+  exact ⟨(floor_spec a (inInt64_iff.2 ⟨f1, f2⟩)).1, (ceil_spec a (inInt64_iff.2 ⟨c1, c2⟩)).1⟩
+
+/-- exactly: `floor` returns an integer iff `-2^63 ≤ a < 2^63`, and is outside the model otherwise -/
+theorem floor_range (a : Rat) :
+    (((-(2 ^ 63) : Int) : Rat) ≤ a ∧ a < ((2 ^ 63 : Int) : Rat) → Num.floor [fv a] = ret (.int .int a.floor)) ∧
+    (a < ((-(2 ^ 63) : Int) : Rat) ∨ ((2 ^ 63 : Int) : Rat) ≤ a →
+      Num.floor [fv a] = .unmodelled "float→int conversion out of range is implementation-defined") := by
+  constructor
+  · intro ⟨h1, h2⟩
+    have f1 : -(2 ^ 63) ≤ a.floor := Rat.le_floor_iff.2 h1
+    have f2 : a.floor < 2 ^ 63 := Rat.floor_lt_iff.2 h2
+    exact (floor_spec a (inInt64_iff.2 ⟨f1, by omega⟩)).1
+  · intro h
+    have : inInt64 a.floor = false := by
+      apply Bool.eq_false_iff.2
+      intro hin
+      obtain ⟨f1, f2⟩ := inInt64_iff.1 hin
+      rcases h with h | h
+      · exact absurd (Rat.le_floor_iff.1 f1) (Rat.not_le.2 h)
+      · have : a.floor < 2 ^ 63 := by omega
+        exact absurd h (Rat.not_le.2 (Rat.floor_lt_iff.1 this))
+    simp [Num.floor, Num.intResult, this]
+
+/-- exactly: `ceil` returns an integer iff `-2^63 - 1 < a ≤ 2^63 - 1`, and is outside the model otherwise -/
+theorem ceil_range (a : Rat) :
+    (((-(2 ^ 63) - 1 : Int) : Rat) < a ∧ a ≤ ((2 ^ 63 - 1 : Int) : Rat) → Num.ceil [fv a] = ret (.int .int a.ceil)) ∧
+    (a ≤ ((-(2 ^ 63) - 1 : Int) : Rat) ∨ ((2 ^ 63 - 1 : Int) : Rat) < a →
+      Num.ceil [fv a] = .unmodelled "float→int conversion out of range is implementation-defined") := by
+  constructor
+  · intro ⟨h1, h2⟩
+    have c1 : -(2 ^ 63) - 1 < a.ceil := Rat.lt_ceil_iff.2 h1
+    have c2 : a.ceil ≤ 2 ^ 63 - 1 := Rat.ceil_le_iff.2 h2
+    exact (ceil_spec a (inInt64_iff.2 ⟨by omega, c2⟩)).1
+  · intro h
+    have : inInt64 a.ceil = false := by
+      apply Bool.eq_false_iff.2
+      intro hin
+      obtain ⟨f1, f2⟩ := inInt64_iff.1 hin
+      rcases h with h | h
+      · have : -(2 ^ 63) - 1 < a.ceil := by omega
+        exact absurd h (Rat.not_le.2 (Rat.lt_ceil_iff.1 this))
+      · exact absurd (Rat.ceil_le_iff.1 f2) (Rat.not_le.2 h)
+    simp [Num.ceil, Num.intResult, this]
+
+example : (((-(2 ^ 63) : Int) : Rat) ≤ -9223372036854775808 ∧ (-9223372036854775808 : Rat) < ((2 ^ 63 : Int) : Rat))
+    ∧ ((2 ^ 63 : Int) : Rat) ≤ (10 ^ 19 : Nat) ∧ ((2 ^ 63 - 1 : Int) : Rat) < (10 ^ 19 : Nat) := by decide +kernel
+
 /-! ## round: half up to the requested number of places -/
 
 /-- the value `round` computes when every step is exact: `⌊x·10ᵖ + 1/2⌋ / 10ᵖ` -/
@@ -188,6 +320,90 @@ example : Representable ((5 / 2 : Rat) * p10 0) ∧ Representable ((5 / 2 : Rat)
 theorem round_err (x : Rat) (p : Nat) :
     roundHalfUp x p - x ≤ (1 / 2) / p10 p ∧ -(1 / 2) / p10 p < roundHalfUp x p - x :=
   roundHalfUpE_err x (p10 p) (p10_pos p)
+
+/-! ### round for every float and every number of places
+
+`math.Floor(n*exp + 0.5) / exp` rounds half UP, toward +∞: `{{ -2.5 | round }}` is -2 and `{{ -3.5 | round }}` is -3 on
+the real engine (Go's `math.Round`, which rounds half away from zero, is not used). -/
+
+/-- `round` without an argument (and `round: 0`) on EVERY float64 `x` with `-2^52 ≤ x ≤ 2^52 - 1` other than
+0.49999999999999994 (`1/2 - 2^-54`): the result is `⌊x + 1/2⌋` — no `Representable` hypothesis on the intermediate
+`x + 1/2`, which Go may round. -/
+theorem round_half_up (x : Rat) (hx : Representable x) (h1 : ((-(2 ^ 52) : Int) : Rat) ≤ x)
+    (h2 : x ≤ ((2 ^ 52 - 1 : Int) : Rat)) (hne : x ≠ 1 / 2 - pow2 (-54)) :
+    Num.round [fv x, .fn none] = ret (.flt .f64 ((x + 1 / 2).floor : Rat)) ∧
+    Num.round [fv x, .fn (some (.ok (.int .int 0)))] = ret (.flt .f64 ((x + 1 / 2).floor : Rat)) := by
+  have h := roundTo_half_up x hx h1 h2 hne
+  constructor <;> simpa [Num.round, Arg.call] using h
+
+example : Representable (-5 / 2 : Rat) ∧ ((-5 / 2 : Rat) + 1 / 2).floor = -2 ∧ ((-7 / 2 : Rat) + 1 / 2).floor = -3
+    ∧ ((5 / 2 : Rat) + 1 / 2).floor = 3 ∧ ((-1 / 2 : Rat) + 1 / 2).floor = 0 ∧ (-5 / 2 : Rat) ≠ 1 / 2 - pow2 (-54) := by
+  decide +kernel
+
+/-- in particular a whole number in that range is returned unchanged -/
+theorem round_whole (n : Int) (h1 : -(2 ^ 52) ≤ n) (h2 : n ≤ 2 ^ 52 - 1) :
+    Num.round [fv (n : Rat), .fn none] = ret (.flt .f64 (n : Rat)) := by
+  have hrep : Representable (n : Rat) := by
+    have := representable_int_mul n 0 (by omega) (by omega) (by decide) (by decide)
+    rwa [pow2_zero, Rat.mul_one] at this
+  have hne : (n : Rat) ≠ 1 / 2 - pow2 (-54) := by
+    intro h
+    have a1 : ((0 : Int) : Rat) < (n : Rat) := by rw [h]; decide +kernel
+    have a2 : (n : Rat) < ((1 : Int) : Rat) := by rw [h]; decide +kernel
+    have := Rat.intCast_lt_intCast.1 a1
+    have := Rat.intCast_lt_intCast.1 a2
+    omega
+  have hfl : ((n : Rat) + 1 / 2).floor = n := by
+    rw [Rat.add_comm, Rat.floor_add_intCast]
+    have : ((1 : Rat) / 2).floor = 0 := by decide +kernel
+    omega
+  have h := (round_half_up (n : Rat) hrep (Rat.intCast_le_intCast.2 h1) (Rat.intCast_le_intCast.2 h2) hne).1
+  rwa [hfl] at h
+
+/-- the two families the statement excludes are real deviations from "rounds half up" (model = real engine):
+`{{ 0.49999999999999994 | round }}` is 1, not 0 (`x + 0.5` rounds up to 1.0), and above 2^52 an odd whole number is
+not returned unchanged: `{{ 4503599627370497.0 | round }}` is 4503599627370498 (`x + 0.5` is a tie, rounded to even) -/
+theorem round_half_up_exceptions :
+    okFlt (Num.round [fv (1 / 2 - pow2 (-54)), .fn none]) = some 1 ∧ ((1 / 2 - pow2 (-54) : Rat) + 1 / 2).floor = 0 ∧
+    okFlt (Num.round [fv 4503599627370497, .fn none]) = some 4503599627370498 := by decide +kernel
+
+/-- `round: p` for ANY `p` whose scale `math.Pow10(p)` is a non-zero float64 `e` (−323 ≤ p ≤ 308; for p < 0 and p > 22
+`e` is the float nearest to 10^p, not 10^p): the product, the sum and the quotient are each correctly rounded,
+`RN(⌊RN(RN(x·e) + 1/2)⌋ / e)`. `round_spec` is the case where all three are exact. -/
+theorem round_stepwise (x : Rat) (p : Int) (e a b c : Rat) (hpow : Num.pow10Go p = .ok e) (he : e ≠ 0)
+    (h1 : roundF64 (x * e) = some a) (hz : a = 0 → ¬ x < 0) (h2 : roundF64 (a + 1 / 2) = some b)
+    (h3 : roundF64 ((b.floor : Rat) / e) = some c) :
+    Num.round [fv x, .fn (some (.ok (.int .int p)))] = ret (.flt .f64 c) := by
+  have h := roundTo_steps x p e a b c hpow he h1 hz h2 h3
+  simpa [Num.round, Arg.call] using h
+
+/-- the hypotheses of `round_stepwise` at p = −2 and p = 23: the scale is the float64 nearest to 1/100, resp. 10^23,
+and differs from it -/
+example :
+    (match Num.pow10Go (-2) with
+      | .ok e => decide (roundF64 (mkRat 1 100) = some e ∧ e ≠ mkRat 1 100 ∧ e ≠ 0)
+      | _ => false) = true ∧
+    (match Num.pow10Go 23 with
+      | .ok e => decide (roundF64 ((10 ^ 23 : Nat) : Rat) = some e ∧ e ≠ ((10 ^ 23 : Nat) : Rat) ∧ e ≠ 0)
+      | _ => false) = true := by decide +kernel
+
+/-- outside −323 ≤ p ≤ 308 `math.Pow10` is 0 or +Inf and the real filter yields NaN for every receiver
+(`{{ 1234.5678 | round: 309 }}` and `{{ 0 | round: 400 }}` print `NaN`): outside the model -/
+theorem round_places_out_of_range (x : Rat) (p : Int) (hp : p < -323 ∨ 308 < p) :
+    Num.round [fv x, .fn (some (.ok (.int .int p)))]
+      = .unmodelled "math.Pow10: +Inf or 0 scale (the filter yields NaN)" := by
+  simp [Num.round, Arg.call, Num.roundTo, pow10Go_out_of_range p hp, Res.bind]
+
+/-- evaluated on the model, equal to what the real engine prints for 1234.5678: negative places round to tens and
+hundreds (`round: -1` = 1230, `round: -2` = 1200, `round: -4` = 0), places beyond the fractional digits return the
+receiver (`round: 23`, `round: 300`), `round: 308` overflows (`+Inf` in Go, unmodelled here), `round: -323` is 0 -/
+example :
+    let x : Rat := mkRat 5429502395555911 4398046511104
+    let r (p : Int) := Num.round [fv x, .fn (some (.ok (.int .int p)))]
+    Representable x ∧ okFlt (r (-1)) = some 1230 ∧ okFlt (r (-2)) = some 1200 ∧ okFlt (r (-4)) = some 0
+      ∧ okFlt (r 23) = some x ∧ okFlt (r 300) = some x ∧ isUnmodelled (r 308) = true ∧ okFlt (r (-323)) = some 0
+      ∧ isUnmodelled (r (-324)) = true := by
+  decide +kernel
 
 /-! ## identities (all under `Representable`) -/
 
@@ -308,6 +524,151 @@ theorem modulo_zero_filter (a : Rat) (kr : FltKind) (z : GoVal)
   rw [convertArgs_val_cons hznil, hconv]
   simp only [Res.bind, convertArgs, numImpl_modulo]
   simp [modulo_zero_err a, retErr]
+
+/-! ### … for every receiver
+
+The receiver parameter of both filters is a `float64`: `ApplyFilter` converts the receiver first (`convert recv .f64`)
+and the body sees only the float. So a zero divisor is the error whatever kind the receiver has. -/
+
+/-- the receiver is any value that `Convert` turns into a float64 `a` -/
+theorem divided_by_zero_recv (recv z : GoVal) (a : Rat) (hn : recv ≠ .nil)
+    (hc : convert recv .f64 = .ok (.flt .f64 a)) (hz : (∃ k, z = .int k 0) ∨ (∃ k, z = .flt k 0)) :
+    applyFilter (lookupImpl Num.impls) (Num.bn "divided_by") recv [z]
+      = .err (.filterErr (Num.bn "divided_by") .divZero) := by
+  have hs : lookupSig (Num.bn "divided_by") = some ⟨Num.bn "divided_by", [.val .f64, .val .any], true⟩ := by
+    decide +kernel
+  have hznil : z ≠ .nil := by rcases hz with ⟨k, h⟩ | ⟨k, h⟩ <;> simp [h]
+  have hconv : convert z .any = .ok z := by
+    rcases hz with ⟨k, h⟩ | ⟨k, h⟩ <;> simp [h, convert, convAny, GoVal.toLiquid]
+  unfold applyFilter
+  simp only [hs, List.length_cons, List.length_nil]
+  rw [convertArgs_val_cons hn, hc]
+  simp only [Res.bind]
+  rw [convertArgs_val_cons hznil, hconv]
+  simp only [Res.bind, convertArgs, numImpl_divided_by]
+  rcases hz with ⟨k, h⟩ | ⟨k, h⟩
+  · subst h; simp [(divided_by_zero_err a).1 k, retErr]
+  · subst h; simp [(divided_by_zero_err a).2 k, retErr]
+
+theorem modulo_zero_recv (recv z : GoVal) (a : Rat) (hn : recv ≠ .nil)
+    (hc : convert recv .f64 = .ok (.flt .f64 a)) (hz : (∃ k, z = .int k 0) ∨ (∃ k, z = .flt k 0)) :
+    applyFilter (lookupImpl Num.impls) (Num.bn "modulo") recv [z]
+      = .err (.filterErr (Num.bn "modulo") .divZero) := by
+  have hs : lookupSig (Num.bn "modulo") = some ⟨Num.bn "modulo", [.val .f64, .val .f64], true⟩ := by
+    decide +kernel
+  have hznil : z ≠ .nil := by rcases hz with ⟨k, h⟩ | ⟨k, h⟩ <;> simp [h]
+  have hconv : convert z .f64 = .ok (.flt .f64 0) := by
+    rcases hz with ⟨k, h⟩ | ⟨k, h⟩
+    · simp [h, convert, GoVal.toLiquid, f64Round, roundF64_zero]
+    · simp [h, convert, GoVal.toLiquid]
+  unfold applyFilter
+  simp only [hs, List.length_cons, List.length_nil]
+  rw [convertArgs_val_cons hn, hc]
+  simp only [Res.bind]
+  rw [convertArgs_val_cons hznil, hconv]
+  simp only [Res.bind, convertArgs, numImpl_modulo]
+  simp [modulo_zero_err a, retErr]
+
+/-- a numeric receiver: an integer of any Go kind (within the range of its kind), a float of either width, or a
+string that spells a decimal number within the float64 range (not a spelling of −0, which is outside the model) -/
+inductive NumericRecv : GoVal → Prop where
+  | int (k : IntKind) (n : Int) (h : k.inRange n = true) : NumericRecv (.int k n)
+  | flt (k : FltKind) (a : Rat) : NumericRecv (.flt k a)
+  | str (s : Bytes) (q r : Rat) (hn : readNumber s = .num q) (hr : roundF64 q = some r)
+      (hz : r = 0 → s.head? ≠ some 45) : NumericRecv (.str s)
+
+theorem numericRecv_converts (recv : GoVal) (h : NumericRecv recv) :
+    recv ≠ .nil ∧ ∃ a, convert recv .f64 = .ok (.flt .f64 a) := by
+  cases h with
+  | int k n hk => obtain ⟨r, _, e⟩ := convert_int_f64 k n hk; exact ⟨by simp, r, e⟩
+  | flt k a => exact ⟨by simp, a, convert_flt_f64 k a⟩
+  | str s q r hn hr hz => exact ⟨by simp, r, convert_str_f64 hn hr hz⟩
+
+/-- `divided_by: 0`, `divided_by: 0.0`, `modulo: 0`, `modulo: 0.0` (a zero of any integer kind or float width) with
+an int, uint, float or numeric-string receiver: the error "division by zero", for all 16 combinations at once -/
+theorem zero_divisor_every_receiver (recv z : GoVal) (hr : NumericRecv recv)
+    (hz : (∃ k, z = .int k 0) ∨ (∃ k, z = .flt k 0)) :
+    applyFilter (lookupImpl Num.impls) (Num.bn "divided_by") recv [z]
+      = .err (.filterErr (Num.bn "divided_by") .divZero) ∧
+    applyFilter (lookupImpl Num.impls) (Num.bn "modulo") recv [z]
+      = .err (.filterErr (Num.bn "modulo") .divZero) := by
+  obtain ⟨hn, a, hc⟩ := numericRecv_converts recv hr
+  exact ⟨divided_by_zero_recv recv z a hn hc hz, modulo_zero_recv recv z a hn hc hz⟩
+
+example : NumericRecv (.int .int 7) ∧ NumericRecv (.int .u64 (2 ^ 64 - 1)) ∧ NumericRecv (.flt .f32 (15 / 2))
+    ∧ NumericRecv (.str [55, 46, 53]) :=
+  ⟨.int _ _ (by decide), .int _ _ (by decide), .flt _ _,
+   .str _ (15 / 2) (15 / 2) (by decide +kernel) (by decide +kernel) (by decide +kernel)⟩   -- 7, MaxUint64, 7.5, "7.5"
+
+/-- … and for EVERY receiver whatsoever (nil, a bool, a string that spells no number or −0 or overflows, an array …)
+a zero divisor never produces output: the result of the filter is not a value -/
+theorem zero_divisor_never_output (recv z v : GoVal) (hz : (∃ k, z = .int k 0) ∨ (∃ k, z = .flt k 0)) :
+    applyFilter (lookupImpl Num.impls) (Num.bn "divided_by") recv [z] ≠ .ok v ∧
+    applyFilter (lookupImpl Num.impls) (Num.bn "modulo") recv [z] ≠ .ok v := by
+  have hs1 : lookupSig (Num.bn "divided_by") = some ⟨Num.bn "divided_by", [.val .f64, .val .any], true⟩ := by
+    decide +kernel
+  have hs2 : lookupSig (Num.bn "modulo") = some ⟨Num.bn "modulo", [.val .f64, .val .f64], true⟩ := by
+    decide +kernel
+  by_cases hn : recv = .nil
+  · -- a nil receiver is the zero value of the parameter, 0.0
+    subst hn
+    have hznil : z ≠ .nil := by rcases hz with ⟨k, h⟩ | ⟨k, h⟩ <;> simp [h]
+    have hconv : convert z .any = .ok z := by
+      rcases hz with ⟨k, h⟩ | ⟨k, h⟩ <;> simp [h, convert, convAny, GoVal.toLiquid]
+    have hconv2 : convert z .f64 = .ok (.flt .f64 0) := by
+      rcases hz with ⟨k, h⟩ | ⟨k, h⟩
+      · simp [h, convert, GoVal.toLiquid, f64Round, roundF64_zero]
+      · simp [h, convert, GoVal.toLiquid]
+    constructor
+    · unfold applyFilter
+      simp only [hs1, List.length_cons, List.length_nil]
+      simp only [convertArgs]
+      rw [hconv]
+      simp only [Res.bind, numImpl_divided_by, ParamTy.zero]
+      rcases hz with ⟨k, h⟩ | ⟨k, h⟩
+      · subst h; simp [(divided_by_zero_err 0).1 k, retErr]
+      · subst h; simp [(divided_by_zero_err 0).2 k, retErr]
+    · unfold applyFilter
+      simp only [hs2, List.length_cons, List.length_nil]
+      simp only [convertArgs]
+      rw [hconv2]
+      simp only [Res.bind, numImpl_modulo, ParamTy.zero]
+      simp [modulo_zero_err 0, retErr]
+  · cases hc : convert recv .f64 with
+    | ok c =>
+      obtain ⟨a, rfl⟩ := convert_f64_shape recv c hc
+      rw [divided_by_zero_recv recv z a hn hc hz, modulo_zero_recv recv z a hn hc hz]
+      simp
+    | err e =>
+      constructor
+      · unfold applyFilter
+        simp only [hs1, List.length_cons, List.length_nil]
+        rw [convertArgs_val_cons hn, hc]
+        simp [Res.bind]
+      · unfold applyFilter
+        simp only [hs2, List.length_cons, List.length_nil]
+        rw [convertArgs_val_cons hn, hc]
+        simp [Res.bind]
+    | panic w =>
+      constructor
+      · unfold applyFilter
+        simp only [hs1, List.length_cons, List.length_nil]
+        rw [convertArgs_val_cons hn, hc]
+        simp [Res.bind]
+      · unfold applyFilter
+        simp only [hs2, List.length_cons, List.length_nil]
+        rw [convertArgs_val_cons hn, hc]
+        simp [Res.bind]
+    | unmodelled w =>
+      constructor
+      · unfold applyFilter
+        simp only [hs1, List.length_cons, List.length_nil]
+        rw [convertArgs_val_cons hn, hc]
+        simp [Res.bind]
+      · unfold applyFilter
+        simp only [hs2, List.length_cons, List.length_nil]
+        rw [convertArgs_val_cons hn, hc]
+        simp [Res.bind]
 
 /-! ## printing: a whole-number result is written without a fractional part or exponent -/
 
